@@ -61,6 +61,22 @@ class K:
     def wmeth(self, a):
         return a
 
+    @classmethod
+    @deco
+    def wcmeth(cls, a):
+        return a
+
+    @staticmethod
+    @deco
+    def wsmeth(a):
+        return a
+
+    @classmethod
+    @deco2
+    @deco
+    def wcmeth2(cls, a):
+        return a
+
     class Inner:
         def meth(self, a):
             return a
@@ -94,6 +110,9 @@ FUNCS = {
     "K.smeth": K.smeth,
     "K.prop": K.__dict__["prop"].fget,
     "K.wmeth": K.__dict__["wmeth"].__wrapped__,
+    "K.wcmeth": K.__dict__["wcmeth"].__func__.__wrapped__,
+    "K.wsmeth": K.__dict__["wsmeth"].__func__.__wrapped__,
+    "K.wcmeth2": K.__dict__["wcmeth2"].__func__.__wrapped__.__wrapped__,
     "K.Inner.meth": K.Inner.meth,
     "K.Inner.cmeth": K.Inner.cmeth.__func__,
     "K.Inner.smeth": K.Inner.smeth,
